@@ -66,6 +66,36 @@ def run(ctx):
     ctx.need("R10.1", "witness cells", cells, 24 * len(minima) // 2)
     ctx.tables["minima_compiled"] = [SEVS[i] for i in minima]
 
+    # ---- R10.5: the statement writes its severity (and tag) into every record layout that has the attribute
+    ctx.rule("R10.5", "instantiation census: for every record layout of the witness unit that has a severity attribute the smart_stream constructor reaches an assignment to r.severity(), "
+                      "for every layout with a tag attribute one to r.tag() - the runtime filter judges the statement's own severity, not what the fresh record happens to hold")
+    ninst = 0
+    for g in sorted(prog.fns.values(), key=lambda x: x.id):
+        if not (g.has_cfg and g.kind == "ctor" and (g.cls or "").startswith("nitro::log::detail::smart_stream<") and not g.is_pattern and not g.flags.get("move_ctor") and not g.flags.get("copy_ctor")):
+            continue
+        rec = (g.cls or "")
+        reach = cg.reachable([g.id])
+        wrote = set()
+        for fid in reach:
+            h = prog.fn(fid)
+            if h is None or not h.has_cfg:
+                continue
+            for _, _, e in h.roots():
+                for n in walk(e["expr"]):
+                    lhs = None
+                    if n.get("k") == "bin" and n.get("op") == "=":
+                        lhs = ir.unwrap(n["l"])
+                    elif n.get("k") == "call" and n.get("op") == "=" and n.get("this") is not None:
+                        lhs = ir.unwrap(n["this"])
+                    if isinstance(lhs, dict) and lhs.get("k") == "call" and short(lhs.get("name") or "") in ("severity", "tag") and not lhs.get("args"):
+                        wrote.add(short(lhs["name"]))
+        for attr, acc in (("severity_attribute", "severity"), ("tag_attribute", "tag")):
+            if attr in rec:
+                ninst += 1
+                layout = rec[rec.index("record<"):][:90] if "record<" in rec else rec[:90]
+                ctx.check(acc in wrote, "R10.5", g, "statement-sets-%s:%s" % (acc, layout), "the smart_stream constructor for the record layout %s never reaches an assignment to r.%s(): the attribute keeps whatever the "
+                          "fresh record holds%s" % (layout, acc, ", the runtime threshold is compared with an indeterminate severity" if acc == "severity" else ""), g, why_ok="reaches r.%s() = ..." % acc)
+    ctx.need("R10.5", "attribute obligations over the instantiated record layouts", ninst, 4)
     fns = [f for f in prog.fns.values() if f.has_cfg and f.file.endswith(STREAM_HPP)]
     # ---- R10.2
     nulls = [f for f in fns if f.is_pattern and f.op == "<<" and f.params and "null_stream" in (f.params[0].get("type") or "")]
